@@ -2,7 +2,7 @@
    Only ExtrOcamlBasic is used: bool, option, unit, list, prod, sumbool, sumor and andb/orb are
    mapped to their OCaml counterparts; Z, positive, N, nat stay Coq datatypes. *)
 From Coq Require Import ZArith List.
-From K Require Import Model.Machine Model.Bus Model.Cost Model.Addressing Model.Ops Spec.Price Spec.MemMap.
+From K Require Import Lib.Types Model.Machine Model.Bus Model.Cost Model.Addressing Model.Exec Model.Periph Model.Ops Spec.Price Spec.MemMap Spec.ISA Spec.Domains.
 Require Extraction.
 Require Import ExtrOcamlBasic.
 Extraction Language OCaml.
@@ -11,5 +11,9 @@ Extraction "model.ml"
   Machine.set_regs Machine.set_bus Machine.set_ssum Machine.set_irq Machine.sget Machine.sset
   Ops.run_ops Ops.init_cpu Ops.poke Ops.mem_diff
   Bus.bus_read MemMap.astep MemMap.awrite MemMap.aread MemMap.accessible MemMap.plain MemMap.be_bytes
+  Domains.ref_decode ISA.sem_ref Domains.charge_ref Domains.accesses
+  Domains.dom_c01 Domains.dom_c02 Domains.dom_c03 Domains.dom_c04 Domains.dom_c05 Domains.dom_c06
+  Domains.dom_c07a Domains.dom_c07b Domains.dom_c08 Domains.dom_c20 Domains.known_shal Domains.known_stc_predec
+  Domains.is_exc ISA.reg32 Domains.dom_entry Domains.ref_entry Domains.ref_step
   Price.price_ref Price.settings_of_area Price.on_chip_ram Price.area_of Price.dom_c19
   Z.of_nat Z.to_nat Z.add Z.mul Z.opp Z.div Z.modulo Z.eqb Z.ltb Z.leb Z.pow.
